@@ -181,6 +181,7 @@ static void ProcessFile(char const* FileName, LongWord Offset) {
     LongInt  NextPos;
     LongWord ValidSegs;
     Word     ErgLen = 0, ChkSum = 0, RecCnt, Gran, HSeg;
+    LongWord GrpLineLen = 0;
     String   CBlockName;
 
     LongInt z;
@@ -307,8 +308,14 @@ static void ProcessFile(char const* FileName, LongWord Offset) {
 
                 /* Statistik, Anzahl Datenzeilen ausrechnen */
 
-                RecCnt = ErgLen / LineLen;
-                if ((ErgLen % LineLen) != 0) {
+                /* a line carries whole address units only */
+
+                GrpLineLen = LineLen - (LineLen % Gran);
+                if (GrpLineLen == 0) {
+                    GrpLineLen = Gran;
+                }
+                RecCnt = ErgLen / GrpLineLen;
+                if ((ErgLen % GrpLineLen) != 0) {
                     RecCnt++;
                 }
 
@@ -346,6 +353,12 @@ static void ProcessFile(char const* FileName, LongWord Offset) {
                     if (MaxMoto < MotRecType) {
                         MaxMoto = MotRecType;
                     }
+                    /* the count field of an S-record is a single byte */
+                    if (GrpLineLen + 3 + MotRecType > 255) {
+                        GrpLineLen = 252 - MotRecType;
+                        GrpLineLen -= GrpLineLen % Gran;
+                        RecCnt = (ErgLen + GrpLineLen - 1) / GrpLineLen;
+                    }
                     if (Rec5) {
                         ChkSum = Lo(RecCnt) + Hi(RecCnt) + 3;
                         errno  = 0;
@@ -379,11 +392,12 @@ static void ProcessFile(char const* FileName, LongWord Offset) {
                     break;
                 case eHexFormatIntel32:
                     FormatOccured |= eIntelOccured;
-                    IntOffset = (ErgStart * Gran);
+                    /* bank arithmetic in the address scale that is written */
+                    IntOffset = (ErgStart * ((MultiMode < 2) ? Gran : 1));
                     IntOffset -= IntOffset & 0xffff;
                     HSeg   = IntOffset >> 16;
                     ChkSum = 6 + Lo(HSeg) + Hi(HSeg);
-                    IntOffset /= Gran;
+                    IntOffset /= ((MultiMode < 2) ? Gran : 1);
                     errno = 0;
                     fprintf(TargFile, ":02000004%04X%02X\n", LoWord(HSeg),
                             Lo(0x100 - ChkSum));
@@ -431,8 +445,8 @@ static void ProcessFile(char const* FileName, LongWord Offset) {
                     /* evtl. Folgebank fuer Intel32 ausgeben */
 
                     if ((ActFormat == eHexFormatIntel32) && (FirstBank)) {
-                        IntOffset += (0x10000 / Gran);
-                        HSeg   = IntOffset >> 16;
+                        IntOffset += (0x10000 / ((MultiMode < 2) ? Gran : 1));
+                        HSeg = (IntOffset * ((MultiMode < 2) ? Gran : 1)) >> 16;
                         ChkSum = 6 + Lo(HSeg) + Hi(HSeg);
                         errno  = 0;
                         fprintf(TargFile, ":02000004%04X%02X\n", LoWord(HSeg),
@@ -445,10 +459,14 @@ static void ProcessFile(char const* FileName, LongWord Offset) {
                        Bei Atmel nur 2 Byte pro Zeile!
                        Bei Mico8 nur 4 Byte (davon ein Wort=18 Bit) pro Zeile! */
 
-                    TransLen = min(LineLen, ErgLen);
+                    TransLen = min(GrpLineLen, ErgLen);
                     if ((ActFormat == eHexFormatIntel32)
-                        && ((ErgStart & 0xffff) + (TransLen / Gran) >= 0x10000)) {
-                        TransLen  = Gran * (0x10000 - (ErgStart & 0xffff));
+                        && (((ErgStart * ((MultiMode < 2) ? Gran : 1)) & 0xffff)
+                                    + (TransLen / Gran) * ((MultiMode < 2) ? Gran : 1)
+                            >= 0x10000)) {
+                        TransLen = (Gran / ((MultiMode < 2) ? Gran : 1))
+                                   * (0x10000
+                                      - ((ErgStart * ((MultiMode < 2) ? Gran : 1)) & 0xffff));
                         FirstBank = True;
                     } else if (ActFormat == eHexFormatAtmel) {
                         TransLen = min(2, TransLen);
